@@ -1,8 +1,162 @@
-import Magog.Model.Eval
-import Magog.Model.Time
+import Magog.Lemmas.MakeMoveInv
+import Magog.Lemmas.MMPly
+import Magog.Props.C08
 
-/-! Property C02 — theorems (see DESIGN §5). -/
+/-! Property C02 (first half) — playing a generated move keeps the engine's redundant bookkeeping
+    consistent, and never panics.
+
+`Model.makeMove : Position → Move → M (Position × Bool)` models `Position.MakeMove` (engine/position.go):
+it updates the 0x88 board, the four piece lists, the two king squares, the castling flags, the
+en-passant square and the ply counter, and returns whether the mover's king is safe afterwards.
+
+Definitions (in `Magog/Spec/MakeMove.lean`, `Magog/Lemmas/Inv.lean`):
+* `Inv p` — the shared well-formedness invariant: board holds only piece codes, off-board slots empty,
+  lists ↔ board bijection for both colours (`Atk.SideOk`), lists duplicate-free and within capacity,
+  no pawn on a back rank, flags < 32, `castlingConsistent`, en-passant square absent or `EpOk`.
+* `Generated p m` — `m` is one of the moves `genPseudo` produces on `p`.
+* `OppSafe p` — the side NOT to move is not in check (the "legal position" precondition: otherwise the
+  generator produces a capture of the enemy king, which `MakeMove` does not book in any list).
+* `playM`, `GameOk` — playing a list of moves; every move generated at its position and accepted.
+
+Theorems:
+* `fen_inv` — every position the FEN loader accepts satisfies `Inv`.
+* `makeMove_ok` — no panic: `makeMove` returns normally on every generated move.
+* `makeMove_inv` — an accepted (verdict `true`) generated move leads to a position satisfying `Inv` and
+  `OppSafe` again; `makeMove_inv_any` — `Inv` holds after ANY generated move, and the verdict is exactly
+  `OppSafe` of the new position.
+* `makeMove_ply` — ply + 1 (int16 wrap), side to move flips (unconditional).
+* `history_inv` — `Inv ∧ OppSafe` at every position along a game of generated, accepted moves.
+
+Proof structure (`Magog/Lemmas/`): `MMList` (list operations) → `MMCore` (invariant split per side, the
+two-square board update) → `MMFlags` (castling flags) → `MMStages` (the three stages of `makeMove`) →
+`MMSimple` / `MMSpecial` (simple moves; castling and en passant) → `GenRaw` / `GenGeo` (what the generator
+produces; finite geometry by kernel evaluation) → `MakeMoveInv` (`makeMove_spec`). -/
 
 namespace Magog.Props.C02
+open Magog Magog.Model Magog.MM Magog.Count
+
+/-- Every position the FEN loader accepts is well-formed. -/
+theorem fen_inv {s : Bytes} {p : Position} (h : parseFen s = .ok (.ok p)) : Inv p := by
+  have hf := C08.fen_faithful h
+  obtain ⟨_, _, _, _, _, _, _, _, _, _, _, _, _, _, _, hfl, _⟩ := hf
+  exact inv_of_fen (C08.fen_sound h) (C08.fen_sound_lists h) hfl
+
+/-- non-vacuity of `fen_inv`: the standard start position is accepted -/
+example : ∃ p, parseFen (FenSpec.strBytes "rnbqkbnr/pppppppp/8/8/8/8/PPPPPPPP/RNBQKBNR w KQkq - 0 1") = .ok (.ok p) ∧
+    Inv p :=
+  (FenLemmas.accepted_iff.1 (by decide +kernel)).imp fun _ hp => ⟨hp, fen_inv hp⟩
+
+/-- **No panic.** On a well-formed position in which the side not to move is not in check, `makeMove`
+    returns normally for every generated move: the captured man is found on the list it is removed
+    from, a promotion has room in the piece list, every board index is inside the array, the
+    en-passant kill square holds the enemy pawn. -/
+theorem makeMove_ok {p : Position} {m : Move} (hI : Inv p) (hS : OppSafe p) (hG : Generated p m) :
+    ∃ r, makeMove p m = .ok r := by
+  obtain ⟨p', b, h, _⟩ := makeMove_spec hI hS hG
+  exact ⟨(p', b), h⟩
+
+/-- `Inv` holds after ANY generated move (accepted or not), and the returned verdict is exactly "the
+    side that just moved is not in check" (`OppSafe` of the new position). -/
+theorem makeMove_inv_any {p : Position} {m : Move} {p' : Position} {b : Bool} (hI : Inv p) (hS : OppSafe p)
+    (hG : Generated p m) (h : makeMove p m = .ok (p', b)) : Inv p' ∧ (b = true ↔ OppSafe p') := by
+  obtain ⟨q, c, h1, h2, h3⟩ := makeMove_spec hI hS hG
+  rw [h] at h1
+  simp only [Except.ok.injEq, Prod.mk.injEq] at h1
+  obtain ⟨rfl, rfl⟩ := h1
+  exact ⟨h2, h3⟩
+
+/-- **The bookkeeping stays consistent.** An accepted generated move leads to a well-formed position
+    (lists ↔ board bijection for both colours, `Nodup`, capacities, no back-rank pawns, off-board slots
+    empty, flags < 32, castling flags consistent, en-passant square absent or consistent) in which the
+    side that just moved is not in check. -/
+theorem makeMove_inv {p : Position} {m : Move} {p' : Position} (hI : Inv p) (hS : OppSafe p)
+    (hG : Generated p m) (h : makeMove p m = .ok (p', true)) : Inv p' ∧ OppSafe p' := by
+  obtain ⟨h1, h2⟩ := makeMove_inv_any hI hS hG h
+  exact ⟨h1, h2.mp rfl⟩
+
+/-- ply counter and side to move (no precondition) -/
+theorem makeMove_ply {p : Position} {m : Move} {p' : Position} {b : Bool} (h : makeMove p m = .ok (p', b)) :
+    p'.ply = wrap16 (p.ply + 1) ∧ whiteTurn p' = !whiteTurn p :=
+  makeMove_ply_aux h
+
+/-- **Along a whole game.** From a well-formed position with the opponent not in check, after every
+    prefix of a list of moves each generated at its position and accepted, the position is again
+    well-formed with the opponent not in check (and `playM` does not panic). -/
+theorem history_inv {p : Position} {ms : List Move} (hI : Inv p) (hS : OppSafe p) (hG : GameOk p ms) :
+    ∀ k, k ≤ ms.length → ∃ q, playM p (ms.take k) = .ok q ∧ Inv q ∧ OppSafe q :=
+  history hI hS hG
+
+/-! ### Non-vacuity (kernel evaluation of the model) -/
+
+/-- the start position satisfies the preconditions -/
+theorem oppSafe_start : OppSafe startPosition := okVal_eq_some (by decide +kernel)
+
+/-- 1. e2-e4 (a double push setting the en-passant square e3) is generated on the start position -/
+theorem generated_e2e4 : Generated startPosition ⟨0x14, 0x34, 0, 0x24⟩ := by
+  have h : gameOkB Killers.empty startPosition [⟨0x14, 0x34, 0, 0x24⟩] = true := by decide +kernel
+  exact (gameOk_of_B h).1
+
+example : ∃ r, makeMove startPosition ⟨0x14, 0x34, 0, 0x24⟩ = .ok r :=
+  makeMove_ok inv_startPosition oppSafe_start generated_e2e4
+
+/-- `makeMove_inv` on 1. e4: the hypotheses are satisfiable, the resulting position has the
+    en-passant square e3 and Black to move -/
+example : ∃ p', makeMove startPosition ⟨0x14, 0x34, 0, 0x24⟩ = .ok (p', true) ∧ Inv p' ∧ OppSafe p' ∧
+    p'.ep = 0x24 ∧ whiteTurn p' = false := by
+  obtain ⟨_, p', h, _⟩ := gameOk_of_B (kt := Killers.empty) (p := startPosition)
+    (ms := [⟨0x14, 0x34, 0, 0x24⟩]) (by decide +kernel)
+  obtain ⟨h1, h2⟩ := makeMove_inv inv_startPosition oppSafe_start generated_e2e4 h
+  refine ⟨p', h, h1, h2, ?_, ?_⟩
+  · have : (match makeMove startPosition ⟨0x14, 0x34, 0, 0x24⟩ with | .ok (q, _) => q.ep | _ => 0) = 0x24 := by
+      decide +kernel
+    rw [h] at this; exact this
+  · rw [(makeMove_ply h).2]
+    decide +kernel
+
+/-- `makeMove_ply` on 1. e4: ply 0 → 1 -/
+example : ∃ p' b, makeMove startPosition ⟨0x14, 0x34, 0, 0x24⟩ = .ok (p', b) ∧ p'.ply = 1 := by
+  obtain ⟨⟨p', b⟩, h⟩ := makeMove_ok inv_startPosition oppSafe_start generated_e2e4
+  exact ⟨p', b, h, by rw [(makeMove_ply h).1]; decide⟩
+
+/-- 1.e4 e5 2.Nf3 Nc6 3.Bc4 Bc5 4.O-O: double pushes, piece moves and king-side castling -/
+theorem game_castle : GameOk startPosition
+    [⟨Gen.E2, Gen.E4, 0, Gen.E3⟩, ⟨Gen.E7, Gen.E5, 0, Gen.E6⟩, ⟨Gen.G1, Gen.F3, 0, InvalidSq⟩,
+     ⟨Gen.B8, Gen.C6, 0, InvalidSq⟩, ⟨Gen.F1, Gen.C4, 0, InvalidSq⟩, ⟨Gen.F8, Gen.C5, 0, InvalidSq⟩,
+     ⟨Gen.E1, Gen.G1, 0, InvalidSq⟩] :=
+  gameOk_of_B (kt := Killers.empty) (by decide +kernel)
+
+/-- 1.a4 a6 2.a5 b5 3.axb6: an en-passant capture -/
+theorem game_ep : GameOk startPosition
+    [⟨Gen.A2, Gen.A4, 0, Gen.A3⟩, ⟨Gen.A7, Gen.A6, 0, InvalidSq⟩, ⟨Gen.A4, Gen.A5, 0, InvalidSq⟩,
+     ⟨Gen.B7, Gen.B5, 0, Gen.B6⟩, ⟨Gen.A5, Gen.B6, 0, InvalidSq⟩] :=
+  gameOk_of_B (kt := Killers.empty) (by decide +kernel)
+
+/-- `history_inv` on the castling game: after all seven plies the position is well-formed -/
+example : ∃ q, playM startPosition
+    [⟨Gen.E2, Gen.E4, 0, Gen.E3⟩, ⟨Gen.E7, Gen.E5, 0, Gen.E6⟩, ⟨Gen.G1, Gen.F3, 0, InvalidSq⟩,
+     ⟨Gen.B8, Gen.C6, 0, InvalidSq⟩, ⟨Gen.F1, Gen.C4, 0, InvalidSq⟩, ⟨Gen.F8, Gen.C5, 0, InvalidSq⟩,
+     ⟨Gen.E1, Gen.G1, 0, InvalidSq⟩] = .ok q ∧ Inv q ∧ OppSafe q :=
+  history_inv inv_startPosition oppSafe_start game_castle 7 (by decide)
+
+/-- `history_inv` on the en-passant game -/
+example : ∃ q, playM startPosition
+    [⟨Gen.A2, Gen.A4, 0, Gen.A3⟩, ⟨Gen.A7, Gen.A6, 0, InvalidSq⟩, ⟨Gen.A4, Gen.A5, 0, InvalidSq⟩,
+     ⟨Gen.B7, Gen.B5, 0, Gen.B6⟩, ⟨Gen.A5, Gen.B6, 0, InvalidSq⟩] = .ok q ∧ Inv q ∧ OppSafe q :=
+  history_inv inv_startPosition oppSafe_start game_ep 5 (by decide)
+
+set_option maxRecDepth 100000 in
+/-- the promotion witness (White Ke1 Pa7, Black Kh6 Rb8, White to move) is well-formed -/
+theorem inv_promoWitness : Inv c06PromoWitness := inv_of_invB (by decide +kernel)
+
+set_option maxRecDepth 100000 in
+theorem oppSafe_promoWitness : OppSafe c06PromoWitness := okVal_eq_some (by decide +kernel)
+
+set_option maxRecDepth 100000 in
+/-- a capturing promotion a7xb8=Q -/
+theorem game_promo : GameOk c06PromoWitness [⟨Gen.A7, Gen.B8, Queen, InvalidSq⟩] :=
+  gameOk_of_B (kt := Killers.empty) (by decide +kernel)
+
+example : ∃ q, playM c06PromoWitness [⟨Gen.A7, Gen.B8, Queen, InvalidSq⟩] = .ok q ∧ Inv q ∧ OppSafe q :=
+  history_inv inv_promoWitness oppSafe_promoWitness game_promo 1 (by decide)
 
 end Magog.Props.C02
